@@ -4,7 +4,7 @@
 From Coq Require Import Extraction ExtrOcamlBasic.
 From RV Require Import Model.Common Model.Real32 Model.Num Model.Datum Model.Lexer Model.Reader
   Model.Macro Model.Ast Model.Transform Model.Value Model.Equal Model.Print Model.Builtins
-  Model.Eval Model.EvalD Model.Interp Model.Repl.
+  Model.Eval Model.EvalD Model.Interp Model.Repl Model.Cli.
 Extraction "model.ml"
   Common.str_eqb Common.loc_or Ast.eloc Common.errkind_eqb Common.bind Common.mapM
   Real32.f32_of_bits Real32.bits_of_f32 Real32.f32_of_decimal
@@ -20,4 +20,4 @@ Extraction "model.ml"
   Eval.eval_expr Eval.apply_proc EvalD.deval_expr Interp.parse_next
   Interp.register_factory Interp.file_chars Interp.factory_from_text Interp.eval_import_set
   Interp.eval_import Interp.eval_ast Interp.eval_text Interp.eval_file Interp.initial_syntax
-  Repl.check_bracket_closed Repl.repl_run Interp.new_instance Interp.import_stdlib Interp.default_efuel Interp.native_defs.
+  Cli.run_program Repl.check_bracket_closed Repl.repl_run Interp.new_instance Interp.import_stdlib Interp.default_efuel Interp.native_defs.
